@@ -383,7 +383,12 @@ class Interp:
                 return [(st, StrV(fresh("objstr", S)))]
             return self.call_repo(st, fr, fi, v, [], {})
         if isinstance(v, OptV):
+            if self.feasible(st, v.isnone) and self.feasible(st, z3.Not(v.isnone)):
+                return [(st, StrV(fresh("optstr", sym.S)))]
             return self.to_str(st, fr, self.unwrap_opt(st, v))
+        if isinstance(v, (ExtV, BoolV, NoneV, TupleV, KwV, SeqV, SetV, DictV, BytesV)):
+            # str() of a number / container: some string (only identity of renderings of ints and strs is modelled)
+            return [(st, StrV(fresh("rendered", sym.S)))]
         return self.theory.to_str(st, fr, v)
 
     def unwrap_opt(self, st: St, v: V) -> V:
